@@ -48,6 +48,7 @@ def scenario_shard(
     stepwise: bool = False,
     salt: int = 0,
     post: Callable[[Run], list[Violation]] | None = None,
+    keep_on_crash: bool = False,
 ):
     run_kwargs = run_kwargs or {}
 
@@ -64,8 +65,10 @@ def scenario_shard(
             tally.aborted[run.crash[0]] = tally.aborted.get(run.crash[0], 0) + 1
             if crash_is_violation and not run.timed_out:
                 vs.append(Violation(prop, f"{prop}/run-raised/{run.crash[0]}", "pyhms raised on a sound configuration: " + run.crash[1][-700:]))
-            else:
+            elif not keep_on_crash or run.timed_out:
                 vs = []  # the case is discarded for this property (foreign defect)
+            # (keep_on_crash: the property's monitors only state facts about what was recorded before the
+            #  exception - sizes, evaluated points - which stay true; the crash may well be their consequence)
         extra_labels, nontrivial = judge(run)
         for lb in labels_of(run) + list(extra_labels):
             tally.label(lb)
@@ -79,7 +82,7 @@ def scenario_shard(
     )
 
 
-def replay_scenario(sc: dict, make_checkers, run_kwargs=None, crash_is_violation=False, prop="", stepwise=False, post=None) -> list[Violation]:
+def replay_scenario(sc: dict, make_checkers, run_kwargs=None, crash_is_violation=False, prop="", stepwise=False, post=None, keep_on_crash=False) -> list[Violation]:
     run = Run(sc, checkers=make_checkers(sc), **(run_kwargs or {}))
     if stepwise:
         run.run_stepwise()
@@ -91,7 +94,7 @@ def replay_scenario(sc: dict, make_checkers, run_kwargs=None, crash_is_violation
     if run.crash:
         if crash_is_violation and not run.timed_out:
             vs.append(Violation(prop, f"{prop}/run-raised/{run.crash[0]}", "pyhms raised: " + run.crash[1][-700:]))
-        else:
+        elif not keep_on_crash or run.timed_out:
             print("  (case aborted by a pyhms exception: %s)" % run.crash[0])
             vs = []
     return vs
